@@ -63,6 +63,9 @@ PRICE_BASE = {'Starting {p} Sale Price': 0.06, 'Ending {p} Sale Price': 0.09, '{
 PRICE_SHIFT = {'Electricity': (0.0, 0.0, 0, 0.0), 'Heat': (0.03, 0.05, -1, 0.004), 'Cooling': (-0.02, -0.03, 1, -0.005)}
 
 
+ENERGY_KEY = {'Electricity': 'surfaceplant.Net Electricity Generation', 'Heat': 'surfaceplant.Heat Produced in kWh', 'Cooling': 'surfaceplant.Annual Cooling Produced'}
+
+
 def price_series(d, prod, L):
     st, en = float(d[f'Starting {prod} Sale Price']), float(d[f'Ending {prod} Sale Price'])
     s, rate = int(float(d[f'{prod} Escalation Start Year'])), float(d[f'{prod} Escalation Rate Per Year'])
@@ -114,6 +117,15 @@ def price_task(payload):
             down = all(y <= x for x, y in zip(s0, s1)) and any(y < x for x, y in zip(s0, s1))
             n0, n1 = bo[NPV], vo[NPV]
             sold = payload['sold'].get(p, False)
+            # "more revenue for a higher price" presupposes that the quantity sold is positive in every year: a bottoming cycle fed below its
+            # entering temperature reports negative direct-use heat, and a higher heat price then lowers the NPV, as the definitions require
+            ser = bo.get(ENERGY_KEY[p])
+            positive = isinstance(ser, (list, tuple)) and len(ser) > 0 and all(isinstance(x, (int, float)) and x > 0 for x in ser)
+            if sold and not positive:
+                check.bump(res, 'price_direction_skipped_energy_not_positive')
+                dd = check.digest([F.fam_id(fam), p, desc, n1])
+                res['states'].append(dd)
+                continue
             if sold and up and not n1 > n0:
                 check.fail(res, f'prices/npv_direction/{p}', f'{desc}: {p} price series rose {s0} -> {s1} with energy sold, NPV went {n0!r} -> {n1!r} [{F.fam_id(fam)}]')
             if sold and down and not n1 < n0:
@@ -241,6 +253,14 @@ def plan(tier, seed):
                         P.append({'kind': 'neutral', 'fam': fam1, 'extra': {}})
                         if em == 2:
                             P.append({'kind': 'neutral', 'fam': fam1, 'extra': {'Total Capital Cost': '40'}})
+    # closed-loop (SBT) economics: same relations
+    for fam in F.sbt_grid(configs=(5,) if tier == 'quick' else (1, 5)):
+        pair = (fam['enduse'], fam['plant'])
+        P.append({'kind': 'scaling', 'fam': fam, 'extra': {}, 'ks': [0.5, 2.0, 3.0]})
+        if fam['econ'] == 1 or tier == 'thorough':
+            P.append({'kind': 'price', 'fam': fam, 'products': ['Electricity', 'Heat'], 'sold': sold_products(pair)})
+        if pair in ((1, 2), (2, 9)):
+            P.append({'kind': 'neutral', 'fam': fam, 'extra': {}})
     return P
 
 
